@@ -1,0 +1,5 @@
+//go:build !verif
+
+package bondmachine
+
+func verifYield(site string, procID int) {}
